@@ -10,19 +10,21 @@ NOTIFY = r'^std::atomic<bool>::notify_all\(\)$'
 QG = {'QINST': '_ZN5cocls10coro_queue8instanceE', 'TLS_GUARD': '__tls_guard'}
 SNAP = ['CV_F_NODE_SNAPSHOT(n) (gh_push_handle = ((AWT *)(n))->_handle_addr, gh_push_fn = (void *)((AWT *)(n))->_resume_fn, gh_push_next = ((AWT *)(n))->_next)']
 LIBS = ['rt_core.c', 'rt_atomic_protF.c']
+AW_SUB = r'^cocls::awaiter::subscribe\(std::atomic<cocls::awaiter\*>&\)$'
 def unit(name, alias, rx, names=None, names_opt=None, boundary=(), **kw):
     nm = {alias: rx}; nm.update(names or {})
-    d = dict(name=name, driver='c01_future.cpp', roots=[rx], names=nm, names_opt=names_opt or {}, types=TYPES, globals=GLOBALS, boundary=list(boundary), lib=LIBS,
+    no = {} if alias == 'aw_subscribe' else {'aw_subscribe': AW_SUB}; no.update(names_opt or {})
+    d = dict(name=name, driver='c01_future.cpp', roots=[rx], names=nm, names_opt=no, types=TYPES, globals=GLOBALS, boundary=list(boundary), lib=LIBS,
              spec=['C02/a_spec.h', 'C02/h_a.c'], harness='h_' + name, enforce=alias, under_contract=[rx.strip('^$').replace('\\', '')])
     d.update(kw)
     return d
 UNITS = [
-    unit('subscribe_check_ready', 'aw_subscribe_check_ready', r'^cocls::awaiter::subscribe_check_ready\(std::atomic<cocls::awaiter\*>&, cocls::awaiter&\)$', loop_contracts=True, defines=SNAP),
+    unit('subscribe_check_ready', 'aw_subscribe_check_ready', r'^cocls::awaiter::subscribe_check_ready\(std::atomic<cocls::awaiter\*>&, cocls::awaiter&\)$', names_opt={'aw_subscribe': AW_SUB}, loop_contracts=True, defines=SNAP),
     unit('resume_chain_set_ready', 'aw_resume_chain_set_ready', r'^cocls::awaiter::resume_chain_set_ready\(std::atomic<cocls::awaiter\*>&, cocls::awaiter&\)$', names_opt={'aw_resume_chain_lk': RC_LK}, boundary=[RC_LK]),
     unit('resume', 'aw_resume', r'^cocls::awaiter::resume\(\)$'),
     unit('co_await_ready', 'co_await_ready', CO + r'await_ready\(\)$', defines=SNAP),
-    unit('co_await_suspend', 'co_await_suspend', CO + r'await_suspend\(std::__n4861::coroutine_handle<void>\)$', names={'aw_subscribe_check_ready': SCR}, loop_contracts=True, defines=SNAP),
-    unit('co_await_suspend_fn', 'co_await_suspend_fn', CO + r'await_suspend\(cocls::suspend_point<void> \(\*\)\(cocls::awaiter\*, void\*\) noexcept, void\*\)$', names={'aw_subscribe_check_ready': SCR}, loop_contracts=True, defines=SNAP),
+    unit('co_await_suspend', 'co_await_suspend', CO + r'await_suspend\(std::__n4861::coroutine_handle<void>\)$', names={'aw_subscribe_check_ready': SCR}, names_opt={'aw_subscribe': AW_SUB}, loop_contracts=True, defines=SNAP),
+    unit('co_await_suspend_fn', 'co_await_suspend_fn', CO + r'await_suspend\(cocls::suspend_point<void> \(\*\)\(cocls::awaiter\*, void\*\) noexcept, void\*\)$', names={'aw_subscribe_check_ready': SCR}, names_opt={'aw_subscribe': AW_SUB}, loop_contracts=True, defines=SNAP),
     unit('co_sync', 'co_sync', CO + r'sync\(\)$', names={'aw_subscribe_check_ready': SCR, 'atomic_bool_wait': WAIT}, boundary=[WAIT], loop_contracts=True, defines=SNAP, globals=dict(GLOBALS, **QG)),
     unit('co_force_sync', 'co_force_sync', CO + r'force_sync\(\)$', names={'aw_subscribe_check_ready': SCR, 'atomic_bool_wait': WAIT}, boundary=[WAIT], loop_contracts=True, defines=SNAP, globals=dict(GLOBALS, **QG)),
     unit('sa_wakeup', 'sa_wakeup', r'^cocls::sync_awaiter::wakeup\(\)$', names={'atomic_bool_notify_all': NOTIFY}, boundary=[NOTIFY]),
